@@ -1,0 +1,15 @@
+//go:build verif
+
+package raft
+
+// VerifTimerGate, when set by a verification harness, is called by a node's election
+// ticker after each random sleep and before it signals the election loop. It may block:
+// a blocking gate lets an external scheduler decide whose election timer fires next.
+// It exists only in builds with the "verif" tag and is nil unless a harness installs it.
+var VerifTimerGate func(r *Raft)
+
+func verifTimerGate(r *Raft) {
+	if gate := VerifTimerGate; gate != nil {
+		gate(r)
+	}
+}
